@@ -295,6 +295,7 @@ def check_load(spec, ctx):
         return sum(c * np.prod(np.broadcast_arrays(*[xyz[j] ** e[j] for j in range(dim)]), axis=0) for c, e in monos)
     # exact inner products: tensor product of 1D integrals; coordinate j <-> tensor axis dim-1-j
     ref = 0
+    refabs = 0
     for c, e in monos:
         vecs = []
         for ax in range(dim):
@@ -305,8 +306,9 @@ def check_load(spec, ctx):
         for v in vecs[1:]:
             T = np.multiply.outer(T, v)
         ref = ref + c * T
+        refabs = refabs + abs(c) * np.abs(T)
     got = ctx.sut(assemble.inner_products, kvs, f, what="inner_products")
-    sc = np.max(np.abs(ref)) + 1e-300
+    sc = np.max(refabs) + 1e-300      # scale of the terms (the sum itself may cancel to zero)
     ctx.close("inner_products_exact", got, ref, rtol=1e-11, atol=0, scale=sc)
     tot = ctx.sut(assemble.integrate, kvs, f, what="integrate")
     ctx.close("integrate_exact", tot, float(np.sum(ref)), rtol=1e-11, atol=1e-13 * sc)
